@@ -7,6 +7,8 @@ desc = json.load(open(os.path.join(V, "seeded", "descriptions.json")))
 metas = {}
 for d in sorted(glob.glob(os.path.join(V, "seeded", "C*"))):
     m = json.load(open(os.path.join(d, "meta.json")))
+    if m.get("retired"):
+        continue          # a later repair made this change harmless (see its meta.json)
     metas[m["id"]] = m
 # (a)
 out = []
